@@ -187,7 +187,8 @@ def h_edits(ctx):
             ctx.assume(False)
         with_col = False       # longer names legitimately move columns
     elif edit == "append-code":
-        tail = {"python": ["", "", "def unrelated_tail(value):", "    return value"],
+        # another function that happens to reuse local names of the code above, with other types
+        tail = {"python": ["", "", "def unrelated_tail(value):", "    s = []", "    out = {}", "    result = 0", "    it = None", "    return value"],
                 "typescript": ["", "function unrelatedTail(value: string): string {", "  return value;", "}"],
                 "javascript": ["", "function unrelatedTail(value) {", "  return value;", "}"],
                 "rust": ["", "fn unrelated_tail(value: String) -> String {", "    value", "}"]}[lang]
